@@ -5,10 +5,18 @@ from tools.check import MachineryError
 RULE = ("V: every row of Lighthouse.tla's gate table (node is/is not a lighthouse x sender's certificate lists no / its primary / "
         "only its secondary address among the configured lighthouses x single / multi-address sender (v4+v4, v4+v6, v6+v4) x "
         "7 message types x claimed address {primary, secondary, another host's, unknown host's, unset} x v1/v2 encoding x "
-        "payload {none, v4, v4+v6+relays, other v6 addresses, no Details}) after a legitimate warm-up that stores IPv4 and IPv6 addresses; R: histories of <= 3 messages from a "
-        "26-message alphabet (the handler object is reused across the messages of a history as in a reader routine); each executed through LightHouseHandler.HandleRequest on a real LightHouse; messages sent, "
-        "punches, punch-back, handshake trigger and the address cache projected after every message; distinct = distinct vectors")
-ASSUMPTIONS = [
+        "payload {none, v4, v4+v6+relays, other v6 addresses, no Details}) after a legitimate warm-up that stores IPv4 and IPv6 addresses, "
+        "and every row once more after a configuration reload between warm-up and message that adds the sender to / removes it from "
+        "lighthouse.hosts (none/primary/secondary -> none/primary/secondary) and/or flips lighthouse.am_lighthouse in the file (quick: a "
+        "1/8 sample of the reload rows (1/40 for UpdateAck, Moved, unknown types) rotated by VERIF_SEED, thorough: all); R: histories of <= 3 steps from an alphabet of 26 messages "
+        "and 4 reloads (lighthouse.hosts loses / gains a host, the role flips in the file; all of length 1 and 2, of length 3 a sample "
+        "rotated by VERIF_SEED: 1/24 quick, 1/2 thorough); lighthouse.hosts is state of the "
+        "specification and Permitted is evaluated against the configuration as of the last reload; a reload step reloads the real "
+        "config.C (ReloadConfigString -> the callback NewLightHouseFromConfig registered -> LightHouse.reload) while the SAME "
+        "LightHouseHandler object is kept, as in a reader routine; each message executed through LightHouseHandler.HandleRequest on the "
+        "real LightHouse; messages sent, punches, punch-back, handshake trigger and the address cache projected after every step; "
+        "distinct = distinct vectors")
+ASSUMPTIONS_OBJ = [
     "'records addresses for A only from a tunnel authenticated as A' is read as: a host update is recorded only when the address it "
     "claims is unset or one of the sender's certificate addresses, only in lists keyed by the sender's addresses, and every cache "
     "entry is owned by (keyed under) an address of the certificate that sent it",
@@ -17,18 +25,50 @@ ASSUMPTIONS = [
     "the positive direction (a permitted effect does happen) is machine-level: a difference there is reported as drift "
     "(exit 2), not as a violation",
     "an overlay address belongs to one certificate (histories never use two senders that share an address)",
+    "'its configured lighthouses' = lighthouse.hosts as of the last successful reload (LightHouse.reload stores a new list on every "
+    "change; tunnels to former lighthouses are deliberately kept, so a removed host can still send); a reload adds the "
+    "static_host_map entry a new lighthouse needs in the same file and keeps the entries of former lighthouses",
+    "lighthouse.am_lighthouse is NOT reloadable: LightHouse.reload never reads it, the role is the value at start-up "
+    "(NewLightHouseFromConfig). A reload whose file flips it is specified as changing nothing (machine level: a difference is drift, "
+    "exit 2); at statement level 'configured as a lighthouse' is then read the weaker way (what either role may do is permitted)",
 ]
+
+from tools.props import _disc as _d
+ASSUMPTIONS = ASSUMPTIONS_OBJ + ['system level (Discovery.tla): ' + a for a in _d.ASSUMPTIONS[:4]]
 
 
 def run(ctx):
+    import threading
+    ctx.spec_dir()
+    counts, errs = {}, []
+
+    def vectors(mode, out):
+        try:
+            cfg = open(ctx.spec_dir() + '/Vec_Lighthouse_%s.cfg' % mode).read()
+            cfg = cfg.replace('Salt = 0', 'Salt = %d' % (ctx.seed % 1000))
+            if 'Salt = %d' % (ctx.seed % 1000) not in cfg:
+                raise MachineryError('Vec_Lighthouse_%s.cfg has no Salt constant' % mode)
+            if not ctx.quick:
+                cfg = cfg.replace('Thorough = FALSE', 'Thorough = TRUE')
+            counts[mode] = ctx.tlc_vectors('Lighthouse', 'Vec_Lighthouse_%s_run.cfg' % mode, out=out, cfgtext=cfg, timeout=1500, workers=2)
+        except BaseException as e:      # re-raised in the main thread
+            errs.append(e)
+
+    # the two vector sets are independent: both TLC runs at the same time (initial states are enumerated by one thread each)
+    ths = [threading.Thread(target=vectors, args=a) for a in (('C35V', 'c35v.ndjson'), ('C35R', 'c35r.ndjson'))]
+    for th in ths:
+        th.start()
+    for th in ths:
+        th.join()
+    if errs:
+        raise errs[0]
+    # (the counters are plain attributes updated by both threads: recompute them from the per-run records)
+    ctx.states = sum(r['distinct'] for r in ctx.tlc_runs if r['ok'])
+    ctx.transitions = sum(r['generated'] for r in ctx.tlc_runs if r['ok'])
     tot = 0
-    for mode, out in (('C35V', 'c35v.ndjson'), ('C35R', 'c35r.ndjson')):
-        cfg = open(ctx.spec_dir() + '/Vec_Lighthouse_%s.cfg' % mode).read()
-        if not ctx.quick:
-            cfg = cfg.replace('Thorough = FALSE', 'Thorough = TRUE')
-        n = ctx.tlc_vectors('Lighthouse', 'Vec_Lighthouse_%s_run.cfg' % mode, out=out, cfgtext=cfg, timeout=1500, workers=2)
-        ctx.extra['vectors_' + mode] = n
-        tot += n
+    for mode in ('C35V', 'C35R'):
+        ctx.extra['vectors_' + mode] = counts[mode]
+        tot += counts[mode]
     res = ctx.gotest('.', 'TestVerif_C35', also=('lh',))
     if res['_rc'] != 0:
         raise MachineryError('harness failed:\n' + res['_stdout'][-3000:])
@@ -38,10 +78,23 @@ def run(ctx):
     if drift and not ctx.violations:
         raise MachineryError('the code differs from Lighthouse.tla\'s machine inside what the statement permits (specification '
                              'out of date?): %s' % json.dumps(drift[0])[:1500])
+    # system level: the discovery protocol on complete nodes (spec/Discovery.tla, rules R1-R4 and R6; R5 = destinations is C36's)
+    if not ctx.violations:
+        from tools.props import _disc
+        _disc.mc(ctx)
+        dres, tf = _disc.record(ctx)
+        ctx.traces += _disc.validate(ctx, tf, only=lambda v: not v.startswith('R5'))
+        if not ctx.violations:
+            _disc.guards(ctx)
     if not ctx.violations:      # a violation ends its history early; it is a verdict by itself
         ctx.require_actions('type:Query', 'type:QueryReply', 'type:Update', 'type:Punch', 'type:UpdateAck', 'type:Moved', 'type:Unknown',
                         'effect:store', 'effect:answer', 'effect:ack', 'effect:punch', 'effect:trigger', 'garbage',
-                        'file:c35v.ndjson', 'file:c35r.ndjson')
+                        'file:c35v.ndjson', 'file:c35r.ndjson',
+                        # lighthouse.hosts is state: messages judged after a reload, by the sender's relation to the old and new set
+                        'type:Reload', 'after-reload:from-removed-lighthouse', 'after-reload:from-added-lighthouse',
+                        'after-reload:from-lighthouse', 'after-reload:from-peer', 'after-reload:am_lighthouse-flipped-in-file',
+                        'after-reload:refused:QueryReply:from-removed-lighthouse', 'after-reload:refused:Punch:from-removed-lighthouse',
+                        'after-reload:honoured:QueryReply:from-added-lighthouse', 'after-reload:honoured:Punch:from-added-lighthouse')
 
 
 META = {
@@ -54,5 +107,6 @@ META = {
             'effects and cache; the harness replays the messages into a real LightHouse (built from configuration, recording '
             'EncWriter, punch socket, trigger channel, virtual time) and compares after every message.',
     'design_ref': '3.6 C35',
-    'note': 'Role changes by reload are not covered. Certificates are represented by the authenticated address list passed to HandleRequest.',
+    'note': 'Reloads change lighthouse.hosts (and add static_host_map entries); removal of static_host_map entries and reloads of the '
+            'allow lists are not part of the histories. Certificates are represented by the authenticated address list passed to HandleRequest.',
 }
